@@ -11,9 +11,18 @@ namespace AsyncsshModel.Auth
 inductive Method where
   | none
   | password
+  | pwChange                    -- password with the change flag: `change_password(user, old, new)`
   | pkProbe                     -- publickey without signature
   | pkSig (sigOK : Bool)        -- publickey with a signature; `sigOK`: it verifies over session id ‖ this request
+  | hostSig (sigOK : Bool)      -- hostbased; `sigOK` as above (the signed request names client host and client user)
+  | kbdint                      -- keyboard-interactive
   | unknown
+  deriving Repr, DecidableEq
+
+/-- what the application answers to a keyboard-interactive step (`get_kbdint_challenge` /
+    `validate_kbdint_response`): `True`, `False` or another challenge -/
+inductive KbdAns where
+  | accept | reject | challenge
   deriving Repr, DecidableEq
 
 structure Req where
@@ -31,9 +40,19 @@ structure App where
   perUserKeys : Bool                  -- the application installs the user's authorized keys in `begin_auth`
                                       -- (`conn.set_authorized_keys`): a key check consults the keys of the user
                                       -- for whom `begin_auth` last completed
+  pwExpired : Nat → Nat → Bool := fun _ _ => false    -- `validate_password` raises PasswordChangeRequired
+  chpwOK : Nat → Nat → Bool := fun _ _ => false       -- `change_password(user, old, _)`
+  chpwExpired : Nat → Nat → Bool := fun _ _ => false  -- `change_password` raises PasswordChangeRequired
+  hostKeyOK : Nat → Bool := fun _ => false            -- `validate_host_public_key` for the key of credential c
+  hostUserOK : Nat → Nat → Bool := fun _ _ => false   -- `validate_host_based_user(user, client host, client user)`
+  kbdStart : Nat → KbdAns := fun _ => .reject         -- `get_kbdint_challenge(user)`
+  kbdNext : Nat → Nat → KbdAns := fun _ _ => .reject  -- `validate_kbdint_response(user, responses)`
 
 inductive Reply where
   | success | failure | pkOk
+  | changeReq                   -- USERAUTH_PASSWD_CHANGEREQ
+  | infoReq                     -- USERAUTH_INFO_REQUEST
+  | unimpl                      -- UNIMPLEMENTED: a method-specific message the current auth object has no handler for
   deriving Repr, DecidableEq
 
 /-- calls into the application / credential checks, in order -/
@@ -41,6 +60,9 @@ inductive Call where
   | begin (user : Nat)
   | checkPw (user cred : Nat) (ok : Bool)
   | checkKey (ctx user key : Nat) (keyOk : Bool) (sig : Option Bool)   -- `ctx`: whose authorized keys were consulted
+  | checkChPw (user cred : Nat) (ok : Bool)
+  | checkHost (user cred : Nat) (keyOk sigOk : Bool) (userOk : Option Bool)
+  | kbd (user : Nat) (resp : Option Nat) (ans : KbdAns)
   deriving Repr, DecidableEq
 
 /-- a `_finish_userauth` task parked on the `begin_auth` awaitable -/
@@ -57,6 +79,7 @@ structure AuthObj where
   req : Req
   valIdx : Nat                  -- which validator call it waits for
   awaiting : Bool
+  resp : Option Nat := none     -- keyboard-interactive: the response being validated (none: the first challenge)
   deriving Repr, DecidableEq
 
 structure St where
@@ -79,6 +102,8 @@ inductive Ev where
   | beginDone (k : Nat)        -- the k-th `begin_auth` awaitable completes
   | valDone (k : Nat)          -- the k-th validator awaitable completes
   | other                      -- a non-authentication message arrives
+  | info (resp : Nat)          -- USERAUTH_INFO_RESPONSE carrying response `resp`
+  | authMsg                    -- another method-specific message (60, 62..79)
   deriving Repr
 
 def sendSuccess (s : St) : St :=
@@ -90,7 +115,7 @@ def sendFailure (s : St) : St := { s with out := s.out ++ [.failure], auth := no
 
 /-- `lookup_server_auth(conn, conn._username, method, packet)` and the start of the new auth object's task,
     up to its validator call -/
-def createAuth (s : St) (r : Req) : St :=
+def createAuth (app : App) (s : St) (r : Req) : St :=
   if s.complete.isSome then s
   else
     match s.username with
@@ -98,12 +123,16 @@ def createAuth (s : St) (r : Req) : St :=
     | some u =>
       match r.method with
       | .none | .unknown => sendFailure s
-      | _ => { s with auth := some ⟨u, r, s.nVal, true⟩, nVal := s.nVal + 1 }
+      | .hostSig sigOK =>
+        -- host key and signature are checked synchronously, before the application is asked about the user
+        if app.hostKeyOK r.cred && sigOK then { s with auth := some ⟨u, r, s.nVal, true, none⟩, nVal := s.nVal + 1 }
+        else sendFailure { s with log := s.log ++ [.checkHost u r.cred (app.hostKeyOK r.cred) sigOK none] }
+      | _ => { s with auth := some ⟨u, r, s.nVal, true, none⟩, nVal := s.nVal + 1 }
 
 /-- continuation of `_finish_userauth` after `begin_auth` answered -/
 def afterBegin (app : App) (s : St) (calledUser : Nat) (r : Req) : St :=
   let s := { s with begun := some calledUser }
-  if app.needsAuth calledUser then createAuth s r else sendSuccess s
+  if app.needsAuth calledUser then createAuth app s r else sendSuccess s
 
 /-- the user whose authorized keys a key check consults -/
 def keyCtx (app : App) (s : St) (a : AuthObj) : Nat :=
@@ -121,7 +150,7 @@ def onReq (app : App) (s : St) (r : Req) : St :=
       let s2 := { s1 with log := s1.log ++ [.begin r.user], nBegin := s1.nBegin + 1 }
       if app.beginAsync then { s2 with tasks := s2.tasks ++ [⟨s1.seq, r.user, s1.nBegin, r⟩] }
       else afterBegin app s2 r.user r
-    else createAuth s1 r
+    else createAuth app s1 r
 
 def onBeginDone (app : App) (s : St) (k : Nat) : St :=
   if s.closed then s else         -- the connection is gone: its tasks were cancelled
@@ -141,9 +170,32 @@ def onValDone (app : App) (s : St) (k : Nat) : St :=
     else
       match a.req.method with
       | .password =>
-        let ok := app.pwOK a.user a.req.cred
-        let s1 := { s with log := s.log ++ [.checkPw a.user a.req.cred ok] }
-        if ok then sendSuccess s1 else sendFailure s1
+        if app.pwExpired a.user a.req.cred then
+          { s with out := s.out ++ [.changeReq], auth := some { a with awaiting := false } }
+        else
+          let ok := app.pwOK a.user a.req.cred
+          let s1 := { s with log := s.log ++ [.checkPw a.user a.req.cred ok] }
+          if ok then sendSuccess s1 else sendFailure s1
+      | .pwChange =>
+        if app.chpwExpired a.user a.req.cred then
+          { s with out := s.out ++ [.changeReq], auth := some { a with awaiting := false } }
+        else
+          let ok := app.chpwOK a.user a.req.cred
+          let s1 := { s with log := s.log ++ [.checkChPw a.user a.req.cred ok] }
+          if ok then sendSuccess s1 else sendFailure s1
+      | .hostSig sigOK =>
+        let ok := app.hostUserOK a.user a.req.cred
+        let s1 := { s with log := s.log ++ [.checkHost a.user a.req.cred (app.hostKeyOK a.req.cred) sigOK (some ok)] }
+        if app.hostKeyOK a.req.cred && sigOK && ok then sendSuccess s1 else sendFailure s1
+      | .kbdint =>
+        let ans := match a.resp with
+          | none => app.kbdStart a.user
+          | some c => app.kbdNext a.user c
+        let s1 := { s with log := s.log ++ [.kbd a.user a.resp ans] }
+        match ans with
+        | .accept => sendSuccess s1
+        | .reject => sendFailure s1
+        | .challenge => { s1 with out := s1.out ++ [.infoReq], auth := some { a with awaiting := false } }
       | .pkProbe =>
         let ok := app.keyOK (keyCtx app s a) a.req.cred
         let s1 := { s with log := s.log ++ [.checkKey (keyCtx app s a) a.user a.req.cred ok none] }
@@ -154,11 +206,34 @@ def onValDone (app : App) (s : St) (k : Nat) : St :=
         if ok && sigOK then sendSuccess s1 else sendFailure s1
       | _ => s
 
+/-- a method-specific message (60..79): handed to the current auth object, fatal without one -/
+def onInfo (s : St) (c : Nat) : St :=
+  if s.closed then s
+  else
+    match s.auth with
+    | none => { s with closed := true }                 -- "Authentication not in progress"
+    | some a =>
+      match a.req.method with
+      | .kbdint =>
+        -- `create_task` cancels the object's running task (a pending challenge or validation) and validates
+        -- this response
+        { s with auth := some { a with valIdx := s.nVal, awaiting := true, resp := some c }, nVal := s.nVal + 1 }
+      | _ => { s with out := s.out ++ [.unimpl] }
+
+def onAuthMsg (s : St) : St :=
+  if s.closed then s
+  else
+    match s.auth with
+    | none => { s with closed := true }
+    | some _ => { s with out := s.out ++ [.unimpl] }
+
 def step (app : App) (s : St) : Ev → St
   | .req r => onReq app s r
   | .beginDone k => onBeginDone app s k
   | .valDone k => onValDone app s k
   | .other => if s.complete.isSome then { s with final := true } else { s with closed := true }
+  | .info c => onInfo s c
+  | .authMsg => onAuthMsg s
 
 def run (app : App) (evs : List Ev) : St := evs.foldl (step app) {}
 
@@ -178,13 +253,15 @@ def onReqMid (app : App) (s : St) (r : Req) : St :=
       let s2 := { s1 with log := s1.log ++ [.begin r.user], nBegin := s1.nBegin + 1 }
       if app.beginAsync then { s2 with tasks := s2.tasks ++ [⟨s1.seq, r.user, s1.nBegin, r⟩] }
       else afterBegin app s2 r.user r
-    else createAuth s1 r
+    else createAuth app s1 r
 
 def stepMid (app : App) (s : St) : Ev → St
   | .req r => onReqMid app s r
   | .beginDone k => onBeginDone app s k
   | .valDone k => onValDone app s k
   | .other => if s.complete.isSome then { s with final := true } else { s with closed := true }
+  | .info c => onInfo s c
+  | .authMsg => onAuthMsg s
 
 def runMid (app : App) (evs : List Ev) : St := evs.foldl (stepMid app) {}
 
@@ -202,7 +279,7 @@ def onReqOld (app : App) (s : St) (r : Req) : St :=
       let s2 := { s1 with log := s1.log ++ [.begin r.user], nBegin := s1.nBegin + 1 }
       if app.beginAsync then { s2 with tasks := s2.tasks ++ [⟨s1.seq, r.user, s1.nBegin, r⟩] }
       else afterBegin app s2 r.user r
-    else createAuth s1 r
+    else createAuth app s1 r
 
 def onBeginDoneOld (app : App) (s : St) (k : Nat) : St :=
   if s.closed then s else
@@ -215,6 +292,8 @@ def stepOld (app : App) (s : St) : Ev → St
   | .beginDone k => onBeginDoneOld app s k
   | .valDone k => onValDone app s k
   | .other => if s.complete.isSome then { s with final := true } else { s with closed := true }
+  | .info c => onInfo s c
+  | .authMsg => onAuthMsg s
 
 def runOld (app : App) (evs : List Ev) : St := evs.foldl (stepOld app) {}
 
